@@ -221,7 +221,37 @@ class _Env:
         return False
 
 
+def run_create_sub():
+    """Entry point of the child interpreter started by run_create for cases that name a hash seed."""
+    import json
+    case = json.loads(sys.stdin.read())
+    case["_in_sub"] = True
+    real = sys.stdout
+    sys.stdout = open(os.devnull, "w")
+    import logging
+    logging.disable(logging.CRITICAL)
+    rec = run_create(case)
+    sys.stdout = real
+    print("RESULT " + json.dumps(rec))
+
+
 def run_create(case):
+    if case.get("hashseed") is not None and not case.get("_in_sub"):
+        # a brand-new interpreter with another string-hash seed (set / dict-of-str iteration orders differ)
+        import json
+        import subprocess
+        from .core import REPO, VERIF
+        env = dict(os.environ, PYTHONPATH=VERIF + os.pathsep + REPO, PYTHONDONTWRITEBYTECODE="1", VERIF_REPO=REPO,
+                   PYTHONHASHSEED=str(case["hashseed"]))
+        p = subprocess.run([sys.executable, "-c", "from vh.create import run_create_sub; run_create_sub()"],
+                           input=json.dumps(case).encode(), stdout=subprocess.PIPE, stderr=subprocess.PIPE, env=env, timeout=300)
+        for ln in reversed(p.stdout.decode().strip().splitlines()):
+            if ln.startswith("RESULT "):
+                return json.loads(ln[7:])
+        return {"id": case["id"], "op": "create", "group": case.get("group", "none"), "clauses": case["clauses"],
+                "version": case["version"], "align": bool(case.get("align")), "P": case.get("P") or -1,
+                "single": bool(case["tree"].get("single")), "name": hexs(case["tree"]["name"]), "outer": case.get("outer", ""),
+                "creator": case["creator"], "status": "sub-failed:%d" % p.returncode, "disk": [], "meta": {"decodable": False}}
     sbx = new_sandbox("cr")
     try:
         tree = case["tree"]
